@@ -517,6 +517,11 @@ std::string float_mpq_to_string(mpq_class& q) {
   const mpz_ptr n = q.get_num().get_mpz_t();
   const mpz_ptr d = q.get_den().get_mpz_t();
   const unsigned long decimals = mpz_sizeinbase(d, 2) - 1;
+  // Lay out the digits of the absolute value: the sign is not a digit.
+  const bool negative = (mpz_sgn(n) < 0);
+  if (negative) {
+    mpz_neg(n, n);
+  }
   if (decimals != 0) {
     mpz_ui_pow_ui(d, 5, decimals);
     mpz_mul(n, n, d);
@@ -543,6 +548,9 @@ std::string float_mpq_to_string(mpq_class& q) {
       buf[1] = '.';
       memset(&buf[2], '0', zeroes);
     }
+  }
+  if (negative) {
+    return std::string("-") + buf;
   }
   return buf;
 }
